@@ -111,7 +111,7 @@ def rand_name(r):
 def rand_value_tokens(r, ver):
     k = r.random()
     if k < 0.06:
-        return ["M%d:%s" % (1 if r.random() < 0.3 else 0, hexs(r.choice(cifdesc.NUMBERS + ["1" * r.choice([5, 2040, 2047, 2048])])))]
+        return ["M%d:%s" % (1 if r.random() < 0.3 else 0, hexs(r.choice(cifdesc.NUMBERS + ["1" * r.choice([5, 2040, 2047, 2048, 2049, 3000])])))]
     if k < 0.09:
         return [r.choice(["U", "N"])]
     if k < 0.17:
